@@ -265,7 +265,26 @@ def _render(x):
     return x.render().replace("⟦", "").replace("⟧", "") if hasattr(x, "render") else getattr(x, "name", x)
 
 
+def gap_bin_obligation(ctx, rule="R1"):
+    """The feature interfeatures makes for a gap is binned by the gap's own coordinates (two scenarios on different levels)."""
+    from ..binsmodel import spec_bins
+    f = require_func(ctx, "interface.FeatureDB.interfeatures")
+    H = Harness(ctx)
+    fp = [p for p in f.params if p != "self"][0]
+    for a, b in (((200000, 200010), (400000, 400010)), ((10, 20), (1100000, 1100010))):
+        ys, t = H.run(f, {fp: [feat("A", "chr1", a[0], a[1]), feat("B", "chr1", b[0], b[1])]})
+        want = spec_bins(a[1] + 1, b[0] - 1, "gff", True)
+        got = ys[0].attrs.get("bin") if len(ys) == 1 and isinstance(ys[0], Opaque) else None
+        ctx.ob(rule, got == want, "the gap's bin is the smallest bin containing its final coordinates (bins(start, end) of the new feature itself)", func=f,
+               sig="gap %d..%d bin %s" % (a[1] + 1, b[0] - 1, "= bins(start, end)" if got == want else "%s, bins(start, end) = %s" % (got, want)), nontrivial=False)
+
+
 def _bin_of(ctx, start, end):
+    from ..binsmodel import spec_bins
+    return spec_bins(start, end, "gff", True)
+
+
+def _bin_of_old(ctx, start, end):
     """bins.bins(start, end, one=True) by abstract evaluation of the package's own function on singleton input."""
     from ..binsai import BinsInterp
     from ..binsmodel import bins_consts
